@@ -622,3 +622,29 @@ pub fn watchdog(secs: u64) {
         std::process::exit(2);
     });
 }
+
+/// Run this binary again as a helper process: `wfcheck --child <args...>`.
+/// Returns (exit code or None if killed by a signal, signal, stdout, stderr).
+pub fn spawn_child(args: &[&str], envs: &[(&str, &str)], stdin: Option<&[u8]>) -> (Option<i32>, Option<i32>, Vec<u8>, Vec<u8>) {
+    use std::io::Write;
+    use std::os::unix::process::ExitStatusExt;
+    use std::process::{Command, Stdio};
+    let exe = std::env::current_exe().expect("current_exe");
+    let mut cmd = Command::new(exe);
+    cmd.arg("--child").args(args).stdin(Stdio::piped()).stdout(Stdio::piped()).stderr(Stdio::piped());
+    for (k, v) in envs {
+        cmd.env(k, v);
+    }
+    let mut child = cmd.spawn().expect("spawn child");
+    if let Some(data) = stdin {
+        let mut si = child.stdin.take().unwrap();
+        let data = data.to_vec();
+        std::thread::spawn(move || {
+            let _ = si.write_all(&data);
+        });
+    } else {
+        drop(child.stdin.take());
+    }
+    let out = child.wait_with_output().expect("wait child");
+    (out.status.code(), out.status.signal(), out.stdout, out.stderr)
+}
